@@ -107,6 +107,17 @@ template <typename CharT, typename SizeT>
     return 0;
 }
 
+template <typename CharT, typename SizeT>
+[[nodiscard]] constexpr auto memcmp(CharT const* lhs, CharT const* rhs, SizeT const count) -> int
+{
+    for (SizeT i = 0; i != count; ++i) {
+        if (lhs[i] != rhs[i]) {
+            return compare_units(lhs[i], rhs[i]);
+        }
+    }
+    return 0;
+}
+
 template <typename CharT>
 [[nodiscard]] constexpr auto strchr(CharT* str, int ch) -> CharT*
 {
